@@ -199,7 +199,7 @@ def prim_args(t):
     return dict(t.args)
 
 
-RICH_STRINGS = ['a b', ' lead and trail ', 'tab\tz', 'line\nz', "it's", 'caf\u00e9 \u2603', '%s {0} {}', '#not a comment']
+RICH_STRINGS = ['a b', ' lead and trail ', 'tab\tz', 'line\nz', "it's", 'caf\u00e9 \u2603', '%s {0} {}', '#not a comment', 'C:\\temp\\new']
 
 
 def valid_literals(t, rich=False):
